@@ -27,7 +27,7 @@ func TestVerif(t *testing.T) {
 		ID:    "C15",
 		Level: "exploration",
 		Rule: "(A) for Repository.Tags, Registry.Repositories and Repository.Referrers (API): every item list of length 0..5 x every value of last (none, each item, a non-member) x every split of the remaining items into <= 4 pages (empty pages included) " +
-			"x client page size {0,1,2,7} x Link form {absolute, relative, relative with extra parameters and spaces} x callback failing at page {never,0,1,2} x (referrers) artifact-type filter {none, applied by the server via header, via annotation, not applied}; " +
+			"x client page size {0,1,2,7} x Link form {absolute, relative, relative with extra parameters and spaces, relative with an opaque cursor instead of last} x callback failing at page {never,0,1,2} x (referrers) artifact-type filter {none, applied by the server via header, via annotation, not applied}; " +
 			"the scripted registry double serves exactly those pages and checks every follow-up request against the Link it issued. (B) response documents of size limit-1, limit, limit+1 for small MaxMetadataBytes, padded by whitespace inside the document, after it, or by a long item; a counting body measures the bytes consumed. " +
 			"(C) OCI layout Tags (read-write and read-only store) for every subset of 4 tag names x every last. (D) Referrers through the tag schema with every filter. " +
 			"Oracle: concatenated callback arguments = the model list; stops at the first missing Link or callback error (returned); bytes consumed <= limit; oversize document => error. non-trivial = distinct case with >= 2 pages or a non-empty last",
@@ -42,6 +42,7 @@ type pager struct {
 	host     string
 	path     string // expected request path
 	pages    [][]byte
+	chunked  bool // responses carry no Content-Length (-1), as with chunked transfer encoding
 	linkForm int
 	ctype    string
 	filterHd bool // OCI-Filters-Applied header on every page
@@ -93,12 +94,18 @@ func (p *pager) Do(req *http.Request) (*http.Response, error) {
 	}
 	if i < len(p.pages)-1 {
 		nq := url.Values{}
-		nq.Set("last", fmt.Sprintf("cursor%d", i))
+		if p.linkForm == 3 {
+			nq.Set("cursor", fmt.Sprintf("c%d", i)) // an opaque continuation token: the link carries no 'last' at all
+		} else {
+			nq.Set("last", fmt.Sprintf("cursor%d", i))
+		}
 		if v := q.Get("artifactType"); v != "" {
 			nq.Set("artifactType", v)
 		}
 		p.lastLink = nq.Encode()
 		switch p.linkForm {
+		case 3:
+			h.Set("Link", "<"+req.URL.Path+"?"+nq.Encode()+`>; rel="next"`)
 		case 0:
 			u := *req.URL
 			u.RawQuery = nq.Encode()
@@ -111,7 +118,11 @@ func (p *pager) Do(req *http.Request) (*http.Response, error) {
 	}
 	cb := &cbody{r: bytes.NewReader(p.pages[i])}
 	p.bodies = append(p.bodies, cb)
-	return &http.Response{StatusCode: 200, Header: h, Body: cb, ContentLength: int64(len(p.pages[i])), Request: req}, nil
+	cl := int64(len(p.pages[i]))
+	if p.chunked {
+		cl = -1
+	}
+	return &http.Response{StatusCode: 200, Header: h, Body: cb, ContentLength: cl, Request: req}, nil
 }
 
 // splits enumerates every split of n items into 1..maxPages pages (empty pages allowed).
@@ -206,7 +217,7 @@ func paging(c *driver.Ctx, tg string, n int) {
 			}
 			for _, sp := range splits(len(served), 4) {
 				for _, psize := range []int{0, 1, 2, 7} {
-					for lf := 0; lf < 3; lf++ {
+					for lf := 0; lf < 4; lf++ {
 						for _, failAt := range []int{-1, 0, 1, 2} {
 							one(c, tg, served, want, last, filter, sp, psize, lf, failAt)
 						}
@@ -367,7 +378,9 @@ func limits(c *driver.Ctx) {
 			if tg == "referrers" && limit < 200 {
 				continue
 			}
-			for _, pad := range []string{"inside", "after", "item"} {
+			for _, pad := range []string{"inside", "after", "item", "inside-chunked", "item-chunked"} {
+				chunked := strings.HasSuffix(pad, "-chunked")
+				pad := strings.TrimSuffix(pad, "-chunked")
 				for delta := -2; delta <= 2; delta++ {
 					size := int(limit) + delta
 					var body []byte
@@ -420,7 +433,7 @@ func limits(c *driver.Ctx) {
 					if len(body) != size {
 						continue
 					}
-					p := &pager{host: "reg.example", ctype: "application/json", pages: [][]byte{body}}
+					p := &pager{host: "reg.example", ctype: "application/json", pages: [][]byte{body}, chunked: chunked}
 					var got []string
 					var err error
 					switch tg {
@@ -449,8 +462,8 @@ func limits(c *driver.Ctx) {
 						})
 					}
 					c.Evals++
-					c.Nontriv(driver.Hash("limit", tg, fmt.Sprint(limit, pad, delta)))
-					desc := fmt.Sprintf("%s limit=%d pad=%s body=%d bytes (JSON value %d bytes) -> got %v err %v, consumed %d", tg, limit, pad, size, valueLen, got, err, consumed(p))
+					c.Nontriv(driver.Hash("limit", tg, fmt.Sprint(limit, pad, delta, chunked)))
+					desc := fmt.Sprintf("%s limit=%d pad=%s chunked=%v body=%d bytes (JSON value %d bytes) -> got %v err %v, consumed %d", tg, limit, pad, chunked, size, valueLen, got, err, consumed(p))
 					viol := func(sig string) {
 						c.AddViolation(driver.Violation{Tier: c.Tier, Job: c.Job, Scenario: tg, Sig: tg + ": " + sig, Detail: desc})
 					}
